@@ -625,7 +625,10 @@ geometry only through `(dx, dy)`. -/
 theorem extractSteps_full (nx ny : Nat) (h2x : 2 ≤ nx) (h2y : 2 ≤ ny) (x0 y0 dx dy : α) (hdx : 0 < dx)
     (hdy : 0 < dy) : extractSteps (gridCentres nx ny x0 y0 dx dy) = some (dx, dy) := by
   have hn : 2 * ny ≤ nx * ny := Nat.mul_le_mul_right _ h2x
+  have em : ∀ (cs : List (α × α)) (k : Nat), evalS cs (.min (.abs (.nonzero (.diffCol k)))) =
+      minAbsNonzero (evalV cs (.diffCol k)) := fun _ _ => rfl
   unfold extractSteps gridCentres
+  simp only [Cherab.Gen.Admt.stepDx, Cherab.Gen.Admt.stepDy, em, evalV]
   simp only [List.map_map, Function.comp_def, List.range_eq_range', diffs_map_range']
   have hx : minAbsNonzero ((List.range' 0 (nx * ny - 1)).map fun k =>
       (x0 + (((k + 1) / ny : Nat) : α) * dx) - (x0 + ((k / ny : Nat) : α) * dx)) = some dx := by
